@@ -2082,4 +2082,762 @@ def LearnedStateHarmless : Prop :=
     outcome (runW (fresh s u) evs).1.conn a k =
       outcome { (runW (fresh s u) evs).1.conn with flags := fun _ => u } a k
 
+/-! ### interleaved generators: what each one yields, observed over a whole history -/
+
+/-- what an observer of the history writes down per generator (index = creation order) -/
+structure Ghost where
+  trad    : Nat → List Obj := fun _ => []     -- traditional result of the call that created it
+  comp    : Nat → List Obj := fun _ => []     -- the same with completed paths (what the fallback yields)
+  exp     : Nat → List Obj := fun _ => []     -- which of the two it is going to deliver (known after the first next())
+  got     : Nat → List Obj := fun _ => []     -- objects yielded so far
+  stopped : Nat → Bool := fun _ => false      -- it has raised StopIteration out of a live state
+
+def expOf (g' : Gen) (a : Args) : List Obj :=
+  match g' with
+  | .fallback _ => fallbackItems a
+  | _ => a.tradObjs
+
+def isFinished (g : Gen) : Bool :=
+  match g with
+  | .finished => true
+  | _ => false
+
+def gotAfter (got : List Obj) (r : Res) : List Obj :=
+  match r with
+  | .yield o => got ++ [o]
+  | _ => got
+
+def stoppedAfter (stopped : Bool) (r : Res) : Bool :=
+  match r with
+  | .stop => true
+  | _ => stopped
+
+def expAfter (g g' : Gen) (e : List Obj) : List Obj :=
+  match g with
+  | .notStarted a => expOf g' a
+  | _ => e
+
+def ghostStep (w : World) (gh : Ghost) (ev : Ev) : Ghost :=
+  match ev with
+  | .call a => { gh with trad := setAt gh.trad w.n a.tradObjs, comp := setAt gh.comp w.n (fallbackItems a),
+                         exp := setAt gh.exp w.n a.tradObjs }
+  | .next g =>
+    let r := next w.conn (w.gens g)
+    { gh with exp := setAt gh.exp g (expAfter (w.gens g) r.2.1 (gh.exp g)),
+              got := setAt gh.got g (gotAfter (gh.got g) r.2.2),
+              stopped := setAt gh.stopped g
+                (if isFinished (w.gens g) then gh.stopped g else stoppedAfter (gh.stopped g) r.2.2) }
+  | _ => gh
+
+def runG (w : World) (gh : Ghost) : List Ev → World × Ghost
+  | [] => (w, gh)
+  | ev :: evs => runG (stepW w ev).1 (ghostStep w gh ev) evs
+
+/-- the generator's own context on the server -/
+def OwnCtx (c : Conn) (a : Args) (i : Nat) (x : Ctx) : Prop :=
+  x ∈ c.srv.ctxs ∧ x.id = i ∧ x.kind = pullKind a.fam ∧ x.ns ∈ c.srv.nss
+
+/-- per generator: ghost values (trad, comp, exp, got, stopped) against the generator's state -/
+def GOK (c : Conn) (g : Gen) (trad comp exp got : List Obj) (stopped : Bool) : Prop :=
+  match g with
+  | .notStarted a => got = [] ∧ stopped = false ∧ trad = a.tradObjs ∧ comp = fallbackItems a ∧ a.fam ≠ .query
+  | .pulling a pending eos ctx =>
+      stopped = false ∧
+      ((eos = true ∧ got ++ pending = exp) ∨
+       (eos = false ∧ ∃ i x, ctx = some i ∧ OwnCtx c a i x ∧ got ++ pending ++ x.data = exp))
+  | .fallback pending => stopped = false ∧ got ++ pending = exp
+  | .finished => got <+: exp ∧ (stopped = true → got = exp)
+
+def GenOK (w : World) (gh : Ghost) (j : Nat) : Prop :=
+  GOK w.conn (w.gens j) (gh.trad j) (gh.comp j) (gh.exp j) (gh.got j) (gh.stopped j)
+
+theorem GOK.prefix {c : Conn} {g : Gen} {trad comp exp got : List Obj} {stopped : Bool}
+    (h : GOK c g trad comp exp got stopped) : got <+: exp ∧ (stopped = true → got = exp) := by
+  cases g with
+  | notStarted a => exact ⟨by rw [h.1]; exact List.nil_prefix, fun hs => by rw [h.2.1] at hs; cases hs⟩
+  | pulling a p e x =>
+    refine ⟨?_, fun hs => by rw [h.1] at hs; cases hs⟩
+    rcases h.2 with ⟨_, h⟩ | ⟨_, i, y, _, _, h⟩
+    · exact ⟨p, h⟩
+    · exact ⟨p ++ y.data, by rw [← List.append_assoc]; exact h⟩
+  | fallback p => exact ⟨⟨p, h.2⟩, fun hs => by rw [h.1] at hs; cases hs⟩
+  | finished => exact h
+
+theorem mem_of_lookup_uniq {s : State} (h : Inv s) {x : Ctx} (hx : x ∈ s.ctxs) : lookup s.ctxs x.id = some x := by
+  cases hl : lookup s.ctxs x.id with
+  | none => exact absurd rfl (lookup_none hl x hx)
+  | some y =>
+    have := lookup_some hl
+    rw [h.uniq y this.1 x hx this.2]
+
+/-- Pull on the generator's own context (server enabled, MaxObjectCount ≥ 1) -/
+theorem stepPull_own (s : State) (h : Inv s) (k : Kind) (x : Ctx) (m : Int) (hm : 0 < m)
+    (hd : s.disabled = false) (hx : x ∈ s.ctxs) (hk : x.kind = k) (hns : x.ns ∈ s.nss) :
+    (x.data.length ≤ m.toNat ∧
+      stepPull s k (some x.id) (some m) = ({ s with ctxs := remove s.ctxs x.id }, .batch x.data true none)) ∨
+    (¬ x.data.length ≤ m.toNat ∧
+      stepPull s k (some x.id) (some m) =
+        ({ s with ctxs := replaceData s.ctxs x.id (x.data.drop m.toNat) },
+         .batch (x.data.take m.toNat) false (some x.id))) := by
+  have hl := mem_of_lookup_uniq h hx
+  have hb : badMax (some m) = false := by simp [badMax]; omega
+  by_cases hlen : x.data.length ≤ m.toNat
+  · left; exact ⟨hlen, by simp [stepPull, hb, hd, hl, hns, hk, effMax, hlen]⟩
+  · right; exact ⟨hlen, by simp [stepPull, hb, hd, hl, hns, hk, effMax, hlen]⟩
+
+/-- an action on generator `g` leaves every server context that is not `g`'s own in place, and the namespaces -/
+def Keeps (c c' : Conn) (g : Gen) : Prop :=
+  c'.srv.nss = c.srv.nss ∧ ∀ x ∈ c.srv.ctxs, ¬ holds g x.id → x ∈ c'.srv.ctxs
+
+theorem mem_replaceData_other {cs : List Ctx} {i : Nat} {d : List Obj} {x : Ctx} (hx : x ∈ cs) (hi : x.id ≠ i) :
+    x ∈ replaceData cs i d :=
+  mem_replaceData.mpr ⟨x, hx, by have : (x.id == i) = false := by simp [hi]
+                                 simp [this]⟩
+
+theorem stepClose_keeps (s : State) (ctx : Option Nat) :
+    (stepClose s ctx).1.nss = s.nss ∧ ∀ x ∈ s.ctxs, ctx ≠ some x.id → x ∈ (stepClose s ctx).1.ctxs := by
+  cases ctx with
+  | none => simp [stepClose]
+  | some i =>
+    rcases stepClose_cases s i with ⟨e, he⟩ | ⟨y, _, _, he⟩ <;> rw [he]
+    · exact ⟨rfl, fun x hx _ => hx⟩
+    · exact ⟨rfl, fun x hx h => mem_remove.mpr ⟨hx, fun e => h (by rw [e])⟩⟩
+
+theorem stepPull_keeps (s : State) (k : Kind) (ctx : Option Nat) (m : Option Int) :
+    (stepPull s k ctx m).1.nss = s.nss ∧ ∀ x ∈ s.ctxs, ctx ≠ some x.id → x ∈ (stepPull s k ctx m).1.ctxs := by
+  cases ctx with
+  | none => simp [stepPull]
+  | some i =>
+    rcases stepPull_cases s k i m with ⟨e, he⟩ | ⟨y, _, _, he⟩ | ⟨y, _, _, he⟩ <;> rw [he]
+    · exact ⟨rfl, fun x hx _ => hx⟩
+    · exact ⟨rfl, fun x hx h => mem_remove.mpr ⟨hx, fun e => h (by rw [e])⟩⟩
+    · exact ⟨rfl, fun x hx h => mem_replaceData_other hx (fun e => h (by rw [e]))⟩
+
+theorem srvOpen_keeps (s : State) (a : Args) :
+    (srvOpen s a).1.nss = s.nss ∧ ∀ x ∈ s.ctxs, x ∈ (srvOpen s a).1.ctxs := by
+  rcases srvOpen_cases s a with ⟨e, he⟩ | he | he <;> rw [he]
+  · exact ⟨rfl, fun x hx => hx⟩
+  · exact ⟨rfl, fun x hx => hx⟩
+  · exact ⟨rfl, fun x hx => by simp [openedState, hx]⟩
+
+theorem finallyClose_keeps (c : Conn) (f : Family) (eos : Bool) (ctx : Option Nat) :
+    (finallyClose c f eos ctx).1.srv.nss = c.srv.nss ∧
+    ∀ x ∈ c.srv.ctxs, ¬ (eos = false ∧ ctx = some x.id) → x ∈ (finallyClose c f eos ctx).1.srv.ctxs := by
+  unfold finallyClose
+  split
+  · exact ⟨rfl, fun x hx _ => hx⟩
+  · rename_i h
+    have he : eos = false := by
+      cases eos with
+      | true => exact absurd (Or.inl rfl) h
+      | false => rfl
+    have := stepClose_keeps c.srv ctx
+    exact ⟨this.1, fun x hx hn => this.2 x hx (fun e => hn ⟨he, e⟩)⟩
+
+theorem handleErr_keeps (c : Conn) (a : Args) (e : PyExc) (eos : Bool) (ctx : Option Nat) :
+    (handleErr c a e eos ctx).1.srv.nss = c.srv.nss ∧
+    ∀ x ∈ c.srv.ctxs, ¬ (eos = false ∧ ctx = some x.id) → x ∈ (handleErr c a e eos ctx).1.srv.ctxs := by
+  unfold handleErr
+  split
+  · simp only []
+    have h := finallyClose_keeps { c with flags := setFlag c.flags a.fam (some false) } a.fam eos ctx
+    split
+    · exact h
+    · rw [(fallbackStart_srv _ _).1]; exact h
+  · simp only []
+    have h := finallyClose_keeps c a.fam eos ctx
+    split <;> exact h
+
+theorem advance_keeps (c : Conn) (a : Args) (p : List Obj) (eos : Bool) (ctx : Option Nat) :
+    Keeps c (advance c a p eos ctx).1 (.pulling a p eos ctx) := by
+  unfold Keeps advance
+  split
+  · exact ⟨rfl, fun x hx _ => hx⟩
+  · split
+    · exact ⟨rfl, fun x hx _ => hx⟩
+    · rename_i he
+      have he' : eos = false := by simpa using he
+      have hp := stepPull_keeps c.srv (pullKind a.fam) ctx (some (maxOf a.max))
+      have hp' : ∀ x ∈ c.srv.ctxs, ¬ holds (.pulling a [] eos ctx) x.id → x ∈ (doPull c a ctx).1.srv.ctxs := by
+        intro x hx hn
+        exact hp.2 x hx (fun e => hn ((holds_pulling_iff _ _ _ _ _).mpr ⟨he', e⟩))
+      simp only []
+      split
+      · exact ⟨hp.1, hp'⟩
+      · exact ⟨hp.1, hp'⟩
+      · exact ⟨hp.1, hp'⟩
+      · rename_i e _
+        have hh := handleErr_keeps (doPull c a ctx).1 a e eos ctx
+        refine ⟨hh.1.trans hp.1, fun x hx hn => ?_⟩
+        exact hh.2 x (hp' x hx hn) (fun h => hn ((holds_pulling_iff _ _ _ _ _).mpr h))
+      · exact ⟨hp.1, hp'⟩
+
+theorem start_keeps (c : Conn) (a : Args) (hinv : Inv c.srv) : Keeps c (start c a).1 (.notStarted a) := by
+  unfold Keeps start
+  split
+  · exact ⟨rfl, fun x hx _ => hx⟩
+  · split
+    · rcases srvOpen_cases c.srv a with ⟨e, he⟩ | he | he
+      · rw [doOpen_eq c a _ _ he]
+        simp only []
+        have hh := handleErr_keeps { c with srv := c.srv, log := c.log ++ [(.open a.fam, outErr (.err e))] } a e true none
+        exact ⟨hh.1, fun x hx _ => hh.2 x hx (by simp)⟩
+      · rw [doOpen_eq c a _ _ he]
+        simp only []
+        have ha := advance_keeps (afterOpen c a c.srv) a a.tradObjs true none
+        simp only [afterOpen, outErr] at ha ⊢
+        exact ⟨ha.1, fun x hx _ => ha.2 x hx (by rw [holds_pulling_iff]; simp)⟩
+      · rw [doOpen_eq c a _ _ he]
+        simp only []
+        have ha := advance_keeps (afterOpen c a (openedState c.srv (openKind a.fam) a.ns a.tradObjs (some (maxOf a.max))))
+          a (a.tradObjs.take (effMax (some (maxOf a.max)))) false (some c.srv.nextId)
+        simp only [afterOpen, outErr] at ha ⊢
+        refine ⟨ha.1, fun x hx _ => ha.2 x (by simp [openedState, hx]) ?_⟩
+        rw [holds_pulling_iff]
+        rintro ⟨_, h⟩
+        have := hinv.below x hx
+        simp at h; omega
+    · rw [(fallbackStart_srv _ _).1]; exact ⟨rfl, fun x hx _ => hx⟩
+
+theorem next_keeps (c : Conn) (g : Gen) (hinv : Inv c.srv) : Keeps c (next c g).1 g := by
+  cases g with
+  | notStarted a => exact start_keeps c a hinv
+  | pulling a p e x => exact advance_keeps c a p e x
+  | fallback p => simp only [next]; unfold yieldFrom; split <;> exact ⟨rfl, fun x hx _ => hx⟩
+  | finished => exact ⟨rfl, fun x hx _ => hx⟩
+
+theorem close_keeps (c : Conn) (g : Gen) : Keeps c (close c g).1 g := by
+  cases g with
+  | pulling a p e x =>
+    have h := finallyClose_keeps c a.fam e x
+    have hc : (close c (.pulling a p e x)).1 = (finallyClose c a.fam e x).1 := by
+      simp only [close]; split <;> rfl
+    rw [hc]
+    exact ⟨h.1, fun y hy hn => h.2 y hy (fun hh => hn ((holds_pulling_iff _ _ _ _ _).mpr hh))⟩
+  | notStarted a => exact ⟨rfl, fun x hx _ => hx⟩
+  | fallback p => exact ⟨rfl, fun x hx _ => hx⟩
+  | finished => exact ⟨rfl, fun x hx _ => hx⟩
+
+theorem throwAt_keeps (c : Conn) (g : Gen) (e : PyExc) : Keeps c (throwAt c g e).1 g := by
+  cases g with
+  | pulling a p eos x =>
+    have h := handleErr_keeps c a e eos x
+    simp only [throwAt]
+    exact ⟨h.1, fun y hy hn => h.2 y hy (fun hh => hn ((holds_pulling_iff _ _ _ _ _).mpr hh))⟩
+  | notStarted a => exact ⟨rfl, fun x hx _ => hx⟩
+  | fallback p => exact ⟨rfl, fun x hx _ => hx⟩
+  | finished => exact ⟨rfl, fun x hx _ => hx⟩
+
+/-! #### the generator acted upon -/
+
+theorem own_advance (c : Conn) (a : Args) (p : List Obj) (eos : Bool) (ctx : Option Nat)
+    (trad comp exp got : List Obj) (hd : c.srv.disabled = false) (hinv : Inv c.srv) (hm : 0 < maxOf a.max)
+    (h : GOK c (.pulling a p eos ctx) trad comp exp got false) :
+    GOK (advance c a p eos ctx).1 (advance c a p eos ctx).2.1 trad comp exp
+      (gotAfter got (advance c a p eos ctx).2.2) (stoppedAfter false (advance c a p eos ctx).2.2) ∧
+    (∀ q, (advance c a p eos ctx).2.1 ≠ .fallback q) := by
+  cases p with
+  | cons o rest =>
+    simp only [advance, gotAfter, stoppedAfter]
+    refine ⟨⟨rfl, ?_⟩, fun q hq => by cases hq⟩
+    rcases h.2 with ⟨he, hg⟩ | ⟨he, i, x, hx, hown, hg⟩
+    · exact Or.inl ⟨he, by rw [← hg]; simp⟩
+    · exact Or.inr ⟨he, i, x, hx, hown, by rw [← hg]; simp⟩
+  | nil =>
+    rcases h.2 with ⟨he, hg⟩ | ⟨he, i, x, hx, hown, hg⟩
+    · subst he
+      simp only [advance, if_true, gotAfter, stoppedAfter]
+      have : got = exp := by simpa using hg
+      exact ⟨⟨by rw [this]; exact List.prefix_refl _, fun _ => this⟩, fun q hq => by cases hq⟩
+    · subst he; subst hx
+      obtain ⟨hmem, hid, hkind, hns⟩ := hown
+      subst hid
+      have h' : got ++ x.data = exp := by simpa using hg
+      rcases stepPull_own c.srv hinv (pullKind a.fam) x (maxOf a.max) hm hd hmem hkind hns with ⟨hlen, hp⟩ | ⟨hlen, hp⟩
+      · have e' := doPull_eq c a (some x.id) _ _ hp
+        simp only [advance, Bool.false_eq_true, if_false, e']
+        cases hdta : x.data with
+        | nil =>
+          simp only [gotAfter, stoppedAfter]
+          have : got = exp := by rw [hdta] at h'; simpa using h'
+          exact ⟨⟨by rw [this]; exact List.prefix_refl _, fun _ => this⟩, fun q hq => by cases hq⟩
+        | cons o rest =>
+          simp only [gotAfter, stoppedAfter]
+          refine ⟨⟨rfl, Or.inl ⟨rfl, ?_⟩⟩, fun q hq => by cases hq⟩
+          rw [← h', hdta]; simp
+      · have e' := doPull_eq c a (some x.id) _ _ hp
+        simp only [advance, Bool.false_eq_true, if_false, e']
+        have hne : x.data.take (maxOf a.max).toNat ≠ [] := by
+          intro e
+          rcases List.take_eq_nil_iff.mp e with e | e
+          · omega
+          · rw [e] at hlen; simp at hlen
+        cases hdta : x.data.take (maxOf a.max).toNat with
+        | nil => exact absurd hdta hne
+        | cons o rest =>
+          simp only [gotAfter, stoppedAfter]
+          refine ⟨⟨rfl, Or.inr ⟨rfl, x.id, { x with data := x.data.drop (maxOf a.max).toNat }, rfl, ⟨?_, rfl, hkind, hns⟩, ?_⟩⟩,
+            fun q hq => by cases hq⟩
+          · exact mem_replaceData.mpr ⟨x, hmem, by simp⟩
+          · have := List.take_append_drop (maxOf a.max).toNat x.data
+            rw [hdta] at this
+            rw [← h']; simpa using this
+
+theorem fallbackItems_length (a : Args) : (fallbackItems a).length = a.tradObjs.length := by
+  unfold fallbackItems; split <;> simp
+
+theorem own_fallbackStart (c : Conn) (a : Args) (trad comp : List Obj) :
+    GOK (fallbackStart c a).1 (fallbackStart c a).2.1 trad comp (expOf (fallbackStart c a).2.1 a)
+      (gotAfter [] (fallbackStart c a).2.2) (stoppedAfter false (fallbackStart c a).2.2) := by
+  unfold fallbackStart
+  split
+  · exact ⟨List.nil_prefix, fun h => by cases h⟩
+  · split
+    · exact ⟨List.nil_prefix, fun h => by cases h⟩
+    · simp only []
+      split
+      · exact ⟨List.nil_prefix, fun h => by cases h⟩
+      · unfold yieldFrom
+        split
+        · rename_i hnil
+          have : a.tradObjs = [] := by
+            have := fallbackItems_length a
+            rw [hnil] at this
+            exact List.eq_nil_of_length_eq_zero this.symm
+          simp only [expOf, gotAfter, stoppedAfter, this]
+          exact ⟨List.prefix_refl _, fun _ => rfl⟩
+        · rename_i o rest hcons
+          simp only [expOf, gotAfter, stoppedAfter, hcons]
+          exact ⟨rfl, by simp⟩
+
+theorem own_handleErr_start (c : Conn) (a : Args) (e : PyExc) (trad comp : List Obj) :
+    GOK (handleErr c a e true none).1 (handleErr c a e true none).2.1 trad comp
+      (expOf (handleErr c a e true none).2.1 a)
+      (gotAfter [] (handleErr c a e true none).2.2) (stoppedAfter false (handleErr c a e true none).2.2) := by
+  unfold handleErr
+  split
+  · simp only [finallyClose_eos]
+    exact own_fallbackStart _ a trad comp
+  · simp only [finallyClose_eos]
+    exact ⟨List.nil_prefix, fun h => by cases h⟩
+
+theorem srvOpen_batch_ns (s : State) (a : Args) (objs : List Obj) (eos : Bool) (ctx : Option Nat)
+    (h : (srvOpen s a).2 = .batch objs eos ctx) : a.ns ∈ s.nss := by
+  unfold srvOpen at h
+  split at h
+  · simp at h
+  · split at h
+    · simp at h
+    · rename_i hns; simpa using hns
+
+theorem start_eq_advance (c : Conn) (a : Args) (s' : State) (objs : List Obj) (eos : Bool) (ctx : Option Nat)
+    (hv : validate a = none) (hu : usePull (c.flags a.fam) = true)
+    (h : srvOpen c.srv a = (s', .batch objs eos ctx)) :
+    start c a = advance (afterOpen c a s') a objs eos ctx := by
+  simp [start, hv, hu, doOpen, h, afterOpen, outErr]
+
+/-- the connection after an Open that failed with `e` -/
+def afterOpenErr (c : Conn) (a : Args) (e : PyExc) : Conn :=
+  { c with log := c.log ++ [(.open a.fam, some e)] }
+
+theorem start_eq_handleErr (c : Conn) (a : Args) (e : PyExc)
+    (hv : validate a = none) (hu : usePull (c.flags a.fam) = true)
+    (h : srvOpen c.srv a = (c.srv, .err e)) :
+    start c a = handleErr (afterOpenErr c a e) a e true none := by
+  simp [start, hv, hu, doOpen, h, afterOpenErr, outErr]
+
+theorem start_eq_fallback (c : Conn) (a : Args) (hv : validate a = none) (hu : ¬ usePull (c.flags a.fam) = true) :
+    start c a = fallbackStart c a := by
+  simp [start, hv, hu]
+
+theorem own_start (c : Conn) (a : Args) (trad comp exp : List Obj) (hinv : Inv c.srv)
+    (h : GOK c (.notStarted a) trad comp exp [] false) :
+    GOK (start c a).1 (start c a).2.1 trad comp (expOf (start c a).2.1 a)
+      (gotAfter [] (start c a).2.2) (stoppedAfter false (start c a).2.2) := by
+  have hq : a.fam ≠ .query := h.2.2.2.2
+  cases hv : validate a with
+  | some e =>
+    have : start c a = (c, .finished, .raise e) := by simp [start, hv]
+    rw [this]; exact ⟨List.nil_prefix, fun h => by cases h⟩
+  | none =>
+    have hm := maxPos_of_validate hv
+    by_cases hu : usePull (c.flags a.fam) = true
+    · rcases srvOpen_cases c.srv a with ⟨e, he⟩ | he | he
+      · rw [start_eq_handleErr c a e hv hu he]
+        exact own_handleErr_start _ a e trad comp
+      · rw [start_eq_advance c a _ _ _ _ hv hu he]
+        have hd := srvOpen_batch_enabled c.srv a _ _ _ (by rw [he])
+        have hadv := own_advance (afterOpen c a c.srv) a a.tradObjs true none trad comp a.tradObjs [] hd hinv hm
+          ⟨rfl, Or.inl ⟨rfl, by simp⟩⟩
+        have hexp : expOf (advance (afterOpen c a c.srv) a a.tradObjs true none).2.1 a = a.tradObjs := by
+          unfold expOf; split
+          · rename_i q hq'; exact absurd hq' (hadv.2 q)
+          · rfl
+        rw [hexp]; exact hadv.1
+      · rw [start_eq_advance c a _ _ _ _ hv hu he]
+        have hd := srvOpen_batch_enabled c.srv a _ _ _ (by rw [he])
+        have hns := srvOpen_batch_ns c.srv a _ _ _ (by rw [he])
+        have hinv' : Inv (openedState c.srv (openKind a.fam) a.ns a.tradObjs (some (maxOf a.max))) := by
+          have := srvOpen_inv c.srv a hinv; rw [he] at this; exact this
+        have hadv := own_advance (afterOpen c a (openedState c.srv (openKind a.fam) a.ns a.tradObjs (some (maxOf a.max))))
+          a (a.tradObjs.take (effMax (some (maxOf a.max)))) false (some c.srv.nextId) trad comp a.tradObjs []
+          (by simpa [afterOpen, openedState] using hd) hinv' hm
+          ⟨rfl, Or.inr ⟨rfl, c.srv.nextId,
+            { id := c.srv.nextId, kind := openKind a.fam, ns := a.ns, data := a.tradObjs.drop (effMax (some (maxOf a.max))) },
+            rfl, ⟨by simp [afterOpen, openedState], rfl, kinds_agree _ hq, by simpa [afterOpen, openedState] using hns⟩,
+            by simp⟩⟩
+        have hexp : expOf (advance (afterOpen c a (openedState c.srv (openKind a.fam) a.ns a.tradObjs (some (maxOf a.max))))
+            a (a.tradObjs.take (effMax (some (maxOf a.max)))) false (some c.srv.nextId)).2.1 a = a.tradObjs := by
+          unfold expOf; split
+          · rename_i q hq'; exact absurd hq' (hadv.2 q)
+          · rfl
+        rw [hexp]; exact hadv.1
+    · rw [start_eq_fallback c a hv hu]
+      exact own_fallbackStart c a trad comp
+
+theorem own_next (c : Conn) (g : Gen) (trad comp exp got : List Obj) (stopped : Bool)
+    (hd : c.srv.disabled = false) (hinv : Inv c.srv) (hg : GoodGen g)
+    (h : GOK c g trad comp exp got stopped) :
+    GOK (next c g).1 (next c g).2.1 trad comp (expAfter g (next c g).2.1 exp)
+      (gotAfter got (next c g).2.2)
+      (if isFinished g then stopped else stoppedAfter stopped (next c g).2.2) := by
+  cases g with
+  | notStarted a =>
+    have h1 : got = [] := h.1
+    have h2 : stopped = false := h.2.1
+    subst h1; subst h2
+    simp only [next, expAfter, isFinished, Bool.false_eq_true, if_false]
+    exact own_start c a trad comp exp hinv h
+  | pulling a p e x =>
+    have h2 : stopped = false := h.1
+    subst h2
+    simp only [next, expAfter, isFinished, Bool.false_eq_true, if_false]
+    exact (own_advance c a p e x trad comp exp got hd hinv (hg _ _ _ _ rfl) h).1
+  | fallback p =>
+    have h2 : stopped = false := h.1
+    subst h2
+    simp only [next, expAfter, isFinished, Bool.false_eq_true, if_false]
+    cases p with
+    | nil =>
+      simp only [yieldFrom, gotAfter, stoppedAfter]
+      have : got = exp := by simpa using h.2
+      exact ⟨by rw [this]; exact List.prefix_refl _, fun _ => this⟩
+    | cons o rest =>
+      simp only [yieldFrom, gotAfter, stoppedAfter]
+      exact ⟨rfl, by rw [← h.2]; simp⟩
+  | finished =>
+    simp only [next, expAfter, isFinished, if_true, gotAfter]
+    exact h
+
+theorem own_close (c : Conn) (g : Gen) (trad comp exp got : List Obj) (stopped : Bool)
+    (h : GOK c g trad comp exp got stopped) :
+    GOK (close c g).1 (close c g).2.1 trad comp exp got stopped := by
+  rw [close_gen]; exact h.prefix
+
+theorem own_throw (c : Conn) (g : Gen) (e : PyExc) (trad comp exp got : List Obj) (stopped : Bool)
+    (hpt : ∀ a p eos x, g = .pulling a p eos x → c.flags a.fam = some true)
+    (h : GOK c g trad comp exp got stopped) :
+    GOK (throwAt c g e).1 (throwAt c g e).2.1 trad comp exp got stopped := by
+  have hfin : (throwAt c g e).2.1 = .finished := by
+    cases g with
+    | pulling a p eos x =>
+      have hfl := hpt a p eos x rfl
+      have hl : learns c a.fam e = false := by unfold learns; cases e <;> simp [hfl]
+      simp only [throwAt, handleErr, hl, Bool.false_eq_true, if_false]
+      split <;> rfl
+    | notStarted a => rfl
+    | fallback p => rfl
+    | finished => rfl
+  rw [hfin]; exact h.prefix
+
+theorem GOK.transfer {c c' : Conn} {g : Gen} {trad comp exp got : List Obj} {stopped : Bool}
+    (h : GOK c g trad comp exp got stopped) (hn : c'.srv.nss = c.srv.nss)
+    (hk : ∀ x ∈ c.srv.ctxs, holds g x.id → x ∈ c'.srv.ctxs) : GOK c' g trad comp exp got stopped := by
+  cases g with
+  | notStarted a => exact h
+  | fallback p => exact h
+  | finished => exact h
+  | pulling a p e x =>
+    refine ⟨h.1, ?_⟩
+    rcases h.2 with h2 | ⟨he, i, y, hx, ⟨hmem, hid, hkind, hns⟩, h2⟩
+    · exact Or.inl h2
+    · refine Or.inr ⟨he, i, y, hx, ⟨hk y hmem ?_, hid, hkind, by rw [hn]; exact hns⟩, h2⟩
+      rw [holds_pulling_iff]; exact ⟨he, by rw [hx, hid]⟩
+
+/-- a generator that holds a context holds one that is on the server -/
+theorem GOK.holds_mem {c : Conn} {g : Gen} {trad comp exp got : List Obj} {stopped : Bool} {i : Nat}
+    (h : GOK c g trad comp exp got stopped) (hh : holds g i) : ∃ x ∈ c.srv.ctxs, x.id = i := by
+  obtain ⟨a, p, rfl⟩ := hh
+  rcases h.2 with ⟨he, _⟩ | ⟨_, i', y, hx, ⟨hmem, hid, _, _⟩, _⟩
+  · cases he
+  · cases hx; exact ⟨y, hmem, hid⟩
+
+/-- the context a generator holds after `next()` is the one it held before, or the one the server just created -/
+theorem advance_holds (c : Conn) (a : Args) (p : List Obj) (eos : Bool) (ctx : Option Nat) (i : Nat)
+    (h : holds (advance c a p eos ctx).2.1 i) : holds (.pulling a p eos ctx) i := by
+  unfold advance at h
+  split at h
+  · rw [holds_pulling_iff] at h ⊢; exact h
+  · split at h
+    · obtain ⟨_, _, h⟩ := h; cases h
+    · rename_i he
+      have he' : eos = false := by simpa using he
+      simp only [] at h
+      cases ctx with
+      | none =>
+        have e := doPull_eq c a none c.srv (.err .valueError) (by simp [stepPull])
+        rw [e] at h; simp only [] at h
+        exact absurd h ((handleErr_notPulling _ _ _ _ _).not_holds i)
+      | some j =>
+        rcases stepPull_cases c.srv (pullKind a.fam) j (some (maxOf a.max)) with ⟨e, hs⟩ | ⟨y, _, _, hs⟩ | ⟨y, _, _, hs⟩
+        · rw [doPull_eq c a _ _ _ hs] at h; simp only [] at h
+          exact absurd h ((handleErr_notPulling _ _ _ _ _).not_holds i)
+        · rw [doPull_eq c a _ _ _ hs] at h; simp only [] at h
+          split at h
+          · rw [holds_pulling_iff] at h; simp_all
+          · obtain ⟨_, _, h⟩ := h; cases h
+          · obtain ⟨_, _, h⟩ := h; cases h
+          · simp_all
+          · simp_all
+        · rw [doPull_eq c a _ _ _ hs] at h; simp only [] at h
+          split at h
+          · rename_i o rest eos' ctx' heq
+            simp at heq
+            rw [holds_pulling_iff] at h ⊢
+            obtain ⟨_, h2, h3⟩ := heq
+            subst h3
+            exact ⟨he', h.2⟩
+          · obtain ⟨_, _, h⟩ := h; cases h
+          · obtain ⟨_, _, h⟩ := h; cases h
+          · simp_all
+          · simp_all
+
+theorem next_holds (c : Conn) (g : Gen) (i : Nat) (h : holds (next c g).2.1 i) :
+    holds g i ∨ i = c.srv.nextId := by
+  cases g with
+  | pulling a p e x => exact Or.inl (advance_holds c a p e x i h)
+  | fallback p =>
+    simp only [next] at h; unfold yieldFrom at h
+    split at h <;> (obtain ⟨_, _, h⟩ := h; cases h)
+  | finished => obtain ⟨_, _, h⟩ := h; cases h
+  | notStarted a =>
+    simp only [next] at h
+    cases hv : validate a with
+    | some e =>
+      have : start c a = (c, .finished, .raise e) := by simp [start, hv]
+      rw [this] at h; obtain ⟨_, _, h⟩ := h; cases h
+    | none =>
+      by_cases hu : usePull (c.flags a.fam) = true
+      · rcases srvOpen_cases c.srv a with ⟨e, he⟩ | he | he
+        · rw [start_eq_handleErr c a e hv hu he] at h
+          exact absurd h ((handleErr_notPulling _ _ _ _ _).not_holds i)
+        · rw [start_eq_advance c a _ _ _ _ hv hu he] at h
+          have := advance_holds _ _ _ _ _ _ h
+          rw [holds_pulling_iff] at this; simp at this
+        · rw [start_eq_advance c a _ _ _ _ hv hu he] at h
+          have := advance_holds _ _ _ _ _ _ h
+          rw [holds_pulling_iff] at this
+          right; have := this.2; simp at this; exact this.symm
+      · rw [start_eq_fallback c a hv hu] at h
+        exact absurd h ((fallbackStart_srv _ _).2.not_holds i)
+
+/-! #### the history invariant with the observer's notes -/
+
+structure IInv (w : World) (gh : Ghost) : Prop where
+  h : HInv w
+  inv : Inv w.conn.srv
+  pt : PT w
+  ok : ∀ j, GenOK w gh j
+  expok : ∀ j, j < w.n → gh.exp j = gh.trad j ∨ gh.exp j = gh.comp j
+  distinct : ∀ j j' i, holds (w.gens j) i → holds (w.gens j') i → j = j'
+  beyondG : ∀ j, w.n ≤ j → gh.got j = [] ∧ gh.stopped j = false
+
+theorem iinv_fresh (s : State) (u : Option Bool) (hs : s.ctxs = []) (hd : s.disabled = false) (hinv : Inv s) :
+    IInv (fresh s u) {} :=
+  ⟨⟨by intro x hx; simp [fresh, hs] at hx, hd, fun j _ _ _ _ h => (by cases h), fun _ _ => rfl⟩,
+   hinv, fun _ _ _ _ _ h => (by cases h),
+   fun j => ⟨List.nil_prefix, fun h => (by cases h)⟩,
+   fun j hj => (by simp [fresh] at hj), fun j j' i h => (by obtain ⟨_, _, h⟩ := h; cases h),
+   fun _ _ => ⟨rfl, rfl⟩⟩
+
+/-- common part of next / close / drop / throw: generator `g` goes from `w.gens g` to `g'`, the connection
+    to `c'`, the notes change only at `g` -/
+theorem iinv_update {w : World} {gh gh' : Ghost} (hi : IInv w gh) (g : Nat) (c' : Conn) (g' : Gen)
+    (hH : HInv { w with conn := c', gens := setAt w.gens g g' })
+    (hinv : Inv c'.srv) (hpt : PT { w with conn := c', gens := setAt w.gens g g' })
+    (hkeep : Keeps w.conn c' (w.gens g))
+    (hholds : ∀ i, holds g' i → holds (w.gens g) i ∨ i = w.conn.srv.nextId)
+    (hsame : ∀ j, j ≠ g → gh'.trad j = gh.trad j ∧ gh'.comp j = gh.comp j ∧ gh'.exp j = gh.exp j ∧
+      gh'.got j = gh.got j ∧ gh'.stopped j = gh.stopped j)
+    (hown : GOK c' g' (gh'.trad g) (gh'.comp g) (gh'.exp g) (gh'.got g) (gh'.stopped g))
+    (hexp : g < w.n → gh'.exp g = gh'.trad g ∨ gh'.exp g = gh'.comp g)
+    (hbey : w.n ≤ g → gh'.got g = [] ∧ gh'.stopped g = false) :
+    IInv { w with conn := c', gens := setAt w.gens g g' } gh' := by
+  refine ⟨hH, hinv, hpt, fun j => ?_, fun j hj => ?_, fun j j' i hj hj' => ?_, fun j hj => ?_⟩
+  · by_cases e : j = g
+    · subst e; simp only [GenOK, setAt_same]; exact hown
+    · obtain ⟨h1, h2, h3, h4, h5⟩ := hsame j e
+      simp only [GenOK, setAt_other _ _ e, h1, h2, h3, h4, h5]
+      refine (hi.ok j).transfer hkeep.1 (fun x hx hh => hkeep.2 x hx (fun hg => ?_))
+      exact e (hi.distinct j g x.id hh hg)
+  · by_cases e : j = g
+    · subst e; exact hexp hj
+    · obtain ⟨h1, h2, h3, _, _⟩ := hsame j e
+      rw [h1, h2, h3]; exact hi.expok j hj
+  · -- distinct holders
+    have other : ∀ k, k ≠ g → ∀ i, holds (w.gens k) i → holds g' i → False := by
+      intro k hk i hki hgi
+      obtain ⟨x, hx, hxi⟩ := (hi.ok k).holds_mem hki
+      rcases hholds i hgi with h | h
+      · exact hk (hi.distinct k g i hki h)
+      · have := hi.inv.below x hx; omega
+    by_cases e : j = g
+    · by_cases e' : j' = g
+      · rw [e, e']
+      · subst e
+        simp only [setAt_same] at hj
+        simp only [setAt_other _ _ e'] at hj'
+        exact absurd hj (fun h => other j' e' i hj' h)
+    · by_cases e' : j' = g
+      · subst e'
+        simp only [setAt_same] at hj'
+        simp only [setAt_other _ _ e] at hj
+        exact absurd hj' (fun h => other j e i hj h)
+      · simp only [setAt_other _ _ e] at hj
+        simp only [setAt_other _ _ e'] at hj'
+        exact hi.distinct j j' i hj hj'
+  · by_cases e : j = g
+    · subst e; exact hbey hj
+    · obtain ⟨_, _, _, h4, h5⟩ := hsame j e
+      rw [h4, h5]; exact hi.beyondG j hj
+
+theorem iinv_step {w : World} {gh : Ghost} (ev : Ev) (hi : IInv w gh) (ha : Allowed ev) :
+    IInv (stepW w ev).1 (ghostStep w gh ev) := by
+  have hH := hinv_step ev hi.h ha
+  have hpt := pt_step ev hi.pt
+  cases ev with
+  | next g =>
+    simp only [stepW] at hH hpt ⊢
+    refine iinv_update hi g _ _ hH (next_inv _ _ hi.inv) hpt (next_keeps _ _ hi.inv)
+      (fun i h => next_holds _ _ i h) (fun j e => ?_) ?_ (fun hg => ?_) (fun hg => ?_)
+    · simp [ghostStep, setAt_other _ _ e]
+    · simp only [ghostStep, setAt_same]
+      exact own_next _ _ _ _ _ _ _ hi.h.enabled hi.inv (hi.h.good g) (hi.ok g)
+    · simp only [ghostStep, setAt_same]
+      cases hgen : w.gens g with
+      | notStarted a =>
+        have hk := hi.ok g
+        simp only [GenOK, hgen] at hk
+        simp only [expAfter, expOf]
+        split
+        · right; exact hk.2.2.2.1.symm
+        · left; exact hk.2.2.1.symm
+      | pulling a p e x => simp only [expAfter]; exact hi.expok g hg
+      | fallback p => simp only [expAfter]; exact hi.expok g hg
+      | finished => simp only [expAfter]; exact hi.expok g hg
+    · simp only [ghostStep, setAt_same, hi.h.beyond g hg, isFinished, if_true]
+      have hb := hi.beyondG g hg
+      exact ⟨by simp only [next, gotAfter]; exact hb.1, hb.2⟩
+  | close g =>
+    simp only [stepW] at hH hpt ⊢
+    refine iinv_update hi g _ _ hH (close_inv _ _ hi.inv) hpt (close_keeps _ _)
+      (fun i h => by rw [close_gen] at h; obtain ⟨_, _, h⟩ := h; cases h) (fun j e => ⟨rfl, rfl, rfl, rfl, rfl⟩)
+      (own_close _ _ _ _ _ _ _ (hi.ok g)) (hi.expok g) (hi.beyondG g)
+  | drop g =>
+    simp only [stepW] at hH hpt ⊢
+    refine iinv_update hi g _ _ hH (close_inv _ _ hi.inv) hpt (close_keeps _ _)
+      (fun i h => by rw [close_gen] at h; obtain ⟨_, _, h⟩ := h; cases h) (fun j e => ⟨rfl, rfl, rfl, rfl, rfl⟩)
+      (own_close _ _ _ _ _ _ _ (hi.ok g)) (hi.expok g) (hi.beyondG g)
+  | throw g e =>
+    simp only [stepW] at hH hpt ⊢
+    have hown := own_throw w.conn (w.gens g) e _ _ _ _ _ (fun a p eos x hg => hi.pt g a p eos x hg) (hi.ok g)
+    refine iinv_update hi g _ _ hH (throwAt_inv _ _ _ hi.inv) hpt (throwAt_keeps _ _ _)
+      (fun i h => ?_) (fun j e => ⟨rfl, rfl, rfl, rfl, rfl⟩) hown (hi.expok g) (hi.beyondG g)
+    -- after a throw the generator is over (its flag is True, so the handler does not fall back)
+    exfalso
+    cases hgen : w.gens g with
+    | pulling a p eos x =>
+      have hfl := hi.pt g a p eos x hgen
+      have hl : learns w.conn a.fam e = false := by unfold learns; cases e <;> simp [hfl]
+      rw [hgen] at h
+      simp only [throwAt, handleErr, hl, Bool.false_eq_true, if_false] at h
+      split at h <;> (obtain ⟨_, _, h⟩ := h; cases h)
+    | notStarted a => rw [hgen] at h; obtain ⟨_, _, h⟩ := h; cases h
+    | fallback p => rw [hgen] at h; obtain ⟨_, _, h⟩ := h; cases h
+    | finished => rw [hgen] at h; obtain ⟨_, _, h⟩ := h; cases h
+  | setDisabled b =>
+    have hb : b = false := ha
+    subst hb
+    exact ⟨hH, ⟨hi.inv.uniq, hi.inv.below, hi.inv.nonempty⟩, hpt, hi.ok, hi.expok, hi.distinct, hi.beyondG⟩
+  | call a =>
+    have notheld : ∀ j i, holds (w.gens j) i → j ≠ w.n := by
+      intro j i hj e; subst e
+      rw [hi.h.beyond _ (Nat.le_refl _)] at hj
+      obtain ⟨_, _, hj⟩ := hj; cases hj
+    by_cases hl : a.fam.row.isLazy = true
+    · simp only [stepW, hl, if_true] at hH hpt ⊢
+      refine ⟨hH, hi.inv, hpt, fun j => ?_, fun j hj => ?_, fun j j' i hj hj' => ?_, fun j hj => ?_⟩
+      · by_cases e : j = w.n
+        · subst e
+          have hb := hi.beyondG w.n (Nat.le_refl _)
+          simp only [GenOK, ghostStep, setAt_same]
+          exact ⟨hb.1, hb.2, rfl, rfl, (lazy_iff _).mp hl⟩
+        · simp only [GenOK, ghostStep, setAt_other _ _ e]; exact hi.ok j
+      · by_cases e : j = w.n
+        · subst e; simp [ghostStep, setAt_same]
+        · simp only [ghostStep, setAt_other _ _ e]; exact hi.expok j (by simp only [] at hj; omega)
+      · by_cases e : j = w.n
+        · subst e; simp only [setAt_same] at hj; obtain ⟨_, _, hj⟩ := hj; cases hj
+        · by_cases e' : j' = w.n
+          · subst e'; simp only [setAt_same] at hj'; obtain ⟨_, _, hj'⟩ := hj'; cases hj'
+          · simp only [setAt_other _ _ e] at hj
+            simp only [setAt_other _ _ e'] at hj'
+            exact hi.distinct j j' i hj hj'
+      · have : j ≠ w.n := by simp only [] at hj; omega
+        simp only [ghostStep]; exact hi.beyondG j (by simp only [] at hj; omega)
+    · have hq : a.fam = .query := by
+        by_cases e : a.fam = .query
+        · exact e
+        · exact absurd ((lazy_iff _).mpr e) hl
+      have ht : a.tradErr ≠ none := by
+        rcases ha with h' | h'
+        · exact absurd hq h'
+        · exact h'
+      obtain ⟨code, hcode⟩ := Option.ne_none_iff_exists'.mp ht
+      obtain ⟨e, _, _, hsrv⟩ := callEager_traderr w.conn a code hcode
+      simp only [stepW, hl, Bool.false_eq_true, if_false] at hH hpt ⊢
+      refine ⟨hH, by rw [hsrv]; exact hi.inv, hpt, fun j => ?_, fun j hj => ?_, fun j j' i hj hj' => ?_, fun j hj => ?_⟩
+      · by_cases e : j = w.n
+        · subst e
+          have hb := hi.beyondG w.n (Nat.le_refl _)
+          simp only [GenOK, ghostStep, setAt_same]
+          exact ⟨by rw [hb.1]; exact List.nil_prefix, fun h => by rw [hb.2] at h; cases h⟩
+        · simp only [GenOK, ghostStep, setAt_other _ _ e]
+          exact (hi.ok j).transfer (by rw [hsrv]) (fun x hx _ => by rw [hsrv]; exact hx)
+      · by_cases e : j = w.n
+        · subst e; simp [ghostStep, setAt_same]
+        · simp only [ghostStep, setAt_other _ _ e]; exact hi.expok j (by simp only [] at hj; omega)
+      · by_cases e : j = w.n
+        · subst e; simp only [setAt_same] at hj; obtain ⟨_, _, hj⟩ := hj; cases hj
+        · by_cases e' : j' = w.n
+          · subst e'; simp only [setAt_same] at hj'; obtain ⟨_, _, hj'⟩ := hj'; cases hj'
+          · simp only [setAt_other _ _ e] at hj
+            simp only [setAt_other _ _ e'] at hj'
+            exact hi.distinct j j' i hj hj'
+      · simp only [ghostStep]; exact hi.beyondG j (by simp only [] at hj; omega)
+
+theorem iinv_run : ∀ (evs : List Ev) {w : World} {gh : Ghost}, IInv w gh → (∀ ev ∈ evs, Allowed ev) →
+    IInv (runG w gh evs).1 (runG w gh evs).2 := by
+  intro evs
+  induction evs with
+  | nil => intro w gh h _; exact h
+  | cons ev evs ih =>
+    intro w gh h ha
+    exact ih (iinv_step ev h (ha ev (by simp))) (fun e he => ha e (by simp [he]))
+
+theorem runG_world (w : World) (gh : Ghost) (evs : List Ev) : (runG w gh evs).1 = (runW w evs).1 := by
+  induction evs generalizing w gh with
+  | nil => rfl
+  | cons ev evs ih => simp only [runG, runW]; exact ih _ _
+
 end Proofs.Iter
